@@ -31,7 +31,7 @@ PER_MSG = ("return", "raise", "backend_fail", "hook_raise", "malformed", "unknow
 
 
 def bounds(tier: str) -> Dict[str, Any]:
-    return {"messages": "M = 3 quick / 4 thorough", "A": "unbounded Int >= 1", "P": "0 and 1 (quick), 0 (thorough)",
+    return {"messages": "M = 3 quick / 4 thorough", "A": "unbounded Int >= 1", "P": "0 and 1",
             "environment choices": "K = 6 quick / 7 thorough, then deterministic drain", "outcome kinds per message": len(PER_MSG)}
 
 
@@ -42,7 +42,7 @@ def cases(tier: str) -> List[Any]:
     depth = 2 if tier == "quick" else 3
     for first in PER_MSG:
         for prefix in itertools.product(range(3), repeat=depth):
-            for P in (0, 1) if tier == "quick" else (0,):
+            for P in (0, 1):
                 out.append({"M": M, "K": K, "first": first, "prefix": list(prefix), "P": P})
     return out
 
